@@ -1074,6 +1074,10 @@ class Interp:
             return obj
         if isinstance(fv, ExcClass):
             return ExcVal(fv, list(args))
+        if isinstance(fv, PObj):
+            m = self.ex.methods.get((fv.clsname(), "__call__"))
+            if m is not None:
+                return self.call(m, list(args), kwargs)
         raise Undecided(f"call of {fv!r}")
 
     cur_target = None
